@@ -550,3 +550,16 @@ package argmapper
 //@   ensures  len(result) == 0 || fresh(result)
 //@   assigns  []reflect.Value
 //@   modifies nothing
+
+// ---------------------------------------------------------------- value_set.go: result (C11 frame, C17)
+// result adapts a Result to the set's struct form. The Result is passed by
+// value but its output slice may be shared (it is, for memoized results):
+// nothing that existed before may be written.
+//@ func (*ValueSet).result
+//@   requires t != nil && imp(!t.isLifted, len(r.out) >= 1)
+//@   ensures  [shared-output-slice-untouched] sliceskept([]reflect.Value)
+//@   ensures  [struct-at-0] len(result.out) >= 1 && result.buildErr == r.buildErr
+//@   assigns  Result, []reflect.Value, rvstore, rvfresh
+//@   modifies nothing
+//@   loop 1 invariant len(r.out) >= 1 && fresh(r.out) && sliceskept([]reflect.Value) && soff(r.out) == 0
+//@   loop 2 invariant sliceskept([]reflect.Value)
